@@ -43,7 +43,7 @@ RULE = ('a case is a fault plan: network, k<=4 fake providers with priorities (t
         'the tier alphabet for k<=3 (thorough: k<=4), every weak priority order, max_errors, provider settings and '
         'every one of the 13 methods, cache off. Non-trivial = a plan containing an operation in which every '
         'top-priority provider fails to answer the queried method (so fail-over or failure handling is exercised), '
-        'or a history answered from the cache alone although the confirmed chain goes on (limited reads followed by larger limits), or a cached address summary (getcacheaddressinfo) judged against the complete UTXO answers, or an operation answered from the cache without asking a provider; distinct by the whole case. [directed scenarios include balances of address lists answered partly from the cache] [and a second network using the same cache database: nothing the first stored is an answer for it]')
+        'or a history answered from the cache alone although the confirmed chain goes on (limited reads followed by larger limits), or a cached address summary (getcacheaddressinfo) judged against the complete UTXO answers, or an operation answered from the cache without asking a provider; distinct by the whole case. [directed scenarios include balances of address lists answered partly from the cache] [and a second network using the same cache database: nothing the first stored is an answer for it] [fee targets on both sides of the cache group boundaries in every order]')
 ASSUMPTIONS = [
     'faults are immediate exceptions/values; a time-out is the exception requests raises, not elapsed time',
     'a provider "answers" iff it neither raises nor returns False (the library\'s own reading of "empty response"); '
